@@ -151,6 +151,8 @@ def e2_scenarios(tier):
   for deferred in (False, True):
     for kind in (("fifo",) if tier == "quick" else ("fifo", "lifo")):
       out.append((dict(deferred=deferred, times=1, kind=kind, capacity=2, pending=0), 22))
+  # somebody calls cancel_event with an id nobody has while the post is made: the list is full the whole time, the post must be rejected
+  out.append((dict(deferred=False, times=1, kind="fifo", capacity=2, pending=0, canceller="absent"), 30))
   if tier == "thorough":
     out.append((dict(deferred=False, times=2, kind="fifo", capacity=1, pending=1), 30))
   return out
